@@ -3,7 +3,7 @@ from vlib import modules
 
 
 def run(ctx):
-    if not ctx.build_harness():
+    if not ctx.build_harness(["c13.go", "gen_consts.go"]):
         return
     ctx.regen([modules.CONSTS])
     ctx.forbidden_scan()
@@ -35,11 +35,14 @@ def run(ctx):
         "bytes). MEASURED: sections are built with `go build` together with accessor functions, the bytes of every symbol "
         "read from the running binary and compared with the model image (accept-asm); float texts converted as cmd/asm "
         "does (ParseFloat 64 then float32): float64 boundary+random, float32 stratified sweep (quick 2^24 values, thorough up "
-        "to all 2^32 within 10 min) plus the F11 witnesses through the real assembler and linker")
+        "to all 2^32 within 10 min, through the real operand.F32.String) plus the F11 witnesses through the real assembler and "
+        "linker; every float text is also converted by Lean's own exact-rational model of the assembler (fparse lines compare it "
+        "with strconv, accept-f32/f64 judge with it)")
     ctx.assumptions += [
         "Go int arithmetic does not overflow; placements at negative offsets are outside the property's quantifier",
         "floats: the theorems take `ConstOK` (the assembler converts the printed decimal to the constant's bit pattern) "
-        "as a hypothesis; it is measured, not proved (no verified binary64 arithmetic in Lean)",
+        "as a hypothesis; it is measured per value, not proved for all values (no verified shortest-decimal printing in Lean)",
+        "strings: proved for literals the assembler's lexer leaves alone (LexerSafe); U+00B7 / U+2215 are finding F15",
         "strconv.IsPrint (which runes >= 0x80 %q prints raw) is supplied by the harness per request; the round trip "
         "theorem holds for every such table",
         "cmd/asm's DATA semantics (monotone offsets, WriteInt truncation, WriteString padding, Unquote) are modelled in "
